@@ -11,6 +11,7 @@ CONSTANTS
  DevNoCap = FALSE
  DevHealthNotChecked <- None
  DevDegradedPasses = TRUE
+ DevGateHoisted = FALSE
 INIT Init
 NEXT Next
 INVARIANTS C25_FunctionOfWindow C25_Monotone C25_Gate
